@@ -251,16 +251,35 @@ def run_S2(chk):
         for k, ((c, g), w) in enumerate(zip(got, want)):
             chk.verdict("S2", (f, c), f"{name}{assume or ''}: charge of returned struct #{k + 1} = {g}", True if g == w else False,
                         f"{name}(): {why}; returned struct #{k + 1} carries `{g}` instead of `{w}`")
-    # guards on operands' charges
-    for mod, name, frag, what in ((LIN, "eigh", "x == 0 for x in a.struct.n", "eigh requires zero charge"),
-                                  (SING, "diag", "x != 0 for x in a.struct.n", "diagonal tensors are neutral"),
-                                  ("yastn.tensor._algebra", "_pre_addition", "a.struct.n != b.struct.n", "summands have equal charge"),
-                                  ("yastn.initialize", "block", "tn.struct.n != tn0.struct.n", "blocked tensors have equal charge")):
+    # guards on operands' charges, decided by evaluating the guard expression on witness charges (sa/core/minieval.py): the guard must
+    # fire exactly for the charges that do not fit
+    from ..core.minieval import evaluate, CannotEvaluate
+
+    def charge_guards(f):
+        return [n for n in A.walk_local(f.node) if isinstance(n, ast.If) and any(isinstance(b_, ast.Raise) for b_ in n.body)
+                and any(isinstance(x, ast.Attribute) and x.attr == "n" and A.text(x).endswith("struct.n") for x in ast.walk(n.test))]
+    for mod, name, what, subjects, cases in (
+            (LIN, "eigh", "eigh requires zero charge", 1, [(((0, 0),), False), (((1, 0),), True), (((0, -2),), True)]),
+            (SING, "diag", "diagonal tensors are neutral", 1, [(((0, 0),), False), (((0, 1),), True)]),
+            ("yastn.tensor._algebra", "_pre_addition", "summands have equal charge", 2, [(((1, 0), (1, 0)), False), (((1, 0), (0, 0)), True)]),
+            ("yastn.initialize", "block", "blocked tensors have equal charge", 2, [(((2,), (2,)), False), (((2,), (1,)), True)])):
         f = prog.func(mod, name)
-        g = [n for n in A.walk_local(f.node) if isinstance(n, ast.If) and frag in A.text(n.test) and any(isinstance(b_, ast.Raise) for b_ in n.body)]
-        chk.verdict("S2", (f, g[0] if g else f.node), f"{name}: {what}", True if g else False,
-                    f"{name}(): the guard `{frag}` -> raise is gone: operands whose charges do not fit are combined and the result violates "
-                    f"charge conservation")
+        found = False
+        for g in charge_guards(f):
+            subj = sorted({A.text(x) for x in ast.walk(g.test) if isinstance(x, ast.Attribute) and x.attr == "n" and A.text(x).endswith("struct.n")})
+            if len(subj) != subjects:
+                continue
+            try:
+                ok = all(bool(evaluate(g.test, dict(zip(subj, vals)))) is want for vals, want in cases)
+            except CannotEvaluate:
+                continue
+            if ok:
+                found = True
+                chk.ok("S2", (f, g), f"{name}: {what}", {"guard": A.text(g.test), "decided_on_witnesses": [list(map(list, v)) for v, _w in cases]})
+                break
+        if not found:
+            chk.bad("S2", f, f"{name}: {what}", f"{name}(): no guard raises exactly when {what.replace('requires', 'is violated:').replace('are', 'are not')}: operands whose "
+                    f"charges do not fit are combined and the result violates charge conservation")
     # who may set n: every other construction of a total charge in the tensor layer is listed above
     listed = {"conj", "flip_signature", "tensordot", "_meta_trace", "add_leg", "remove_leg", "_meta_svd", "_meta_qr", "_meta_eigh", "_meta_eigh_lowrank",
               "_meta_eig", "__init__", "from_dict", "to_nonsymmetric", "load_from_hdf5", "block", "eig", "eigh"}
